@@ -21,6 +21,7 @@ def run(ctx):
     dyn.rule_cached_witness_consistent(ctx)
     dyn.rule_encoder_assumptions_reach_sat_calls(ctx)
     dyn.rule_dynamic_query_polarity(ctx)
+    dyn.rule_witnessless_cache_hits(ctx)
     ctx.assume("rustc's MIR and resolved callees; Vec/Cell/Rc/RefCell std semantics")
     return (
         "F5 on the event-log scans (update variants are barriers), F2 on logging/replay/cursor, allocator-discipline analysis of the SAT variables "
